@@ -393,7 +393,7 @@ func (s *serveReplayer) replayTable(v serveVec, rng *rand.Rand) {
 		case 3:
 			rep = serveReply{Kind: "options", Allow: strList(p[4]), Optional: strList(p[5]), Amb: p[6].(float64) == 1}
 		case 4:
-			rep = serveReply{Kind: "nomethod", Allow: strList(p[4]), Optional: strList(p[5])}
+			rep = serveReply{Kind: "nomethod", Allow: strList(p[4]), Optional: strList(p[5]), Amb: p[6].(float64) == 1}
 		}
 		presc[k] = rep
 	}
